@@ -56,6 +56,7 @@ class World:
         self.kept = []
         self.zpeer = None   # zlib decompressor honouring the negotiated context (for Z: canonicalisation)
         self.deflate_cfg = None
+        self.raw = []       # every byte string `sendall` accepted, verbatim (C06 inflates the compressed frames itself)
 
     def log(self, tok):
         if self.recording:
@@ -84,6 +85,7 @@ class FakeSocket:
         if k in w.sc.wfail:
             w.log('WF:' + data.hex())
             raise socket.error(104, 'simulated write failure')
+        w.raw.append(data)
         w.log(w.canon_write(data))
 
     def recv_into(self, buf, count):
@@ -442,9 +444,10 @@ def run_real(sc):
     return run_chain([sc])[0]
 
 
-def run_chain(scs):
+def run_chain(scs, worlds=None):
     """Execute several scenarios one after the other on ONE WebSocket object (reconnects).
-       Returns the list of canonical trace lines, one per connection."""
+       Returns the list of canonical trace lines, one per connection.
+       `worlds`: optional list that receives the `World` of every connection (raw writes, negotiated config)."""
     saved = (_session.time, _events.time, _frame.make_masking_key, _websocket.os.urandom)
     cur = {}
 
@@ -473,6 +476,8 @@ def run_chain(scs):
             world = World(sc)
             world.canon_write = _canon_write_factory(world)
             cur['sc'], cur['world'] = sc, world
+            if worlds is not None:
+                worlds.append(world)
             out.append(_run_one(ws, sc, world))
     finally:
         _session.time, _events.time, _frame.make_masking_key, _websocket.os.urandom = saved
